@@ -312,7 +312,7 @@ def run_body(ctx, fr, body, acc):
             fr.ret = s[1]
             fr.has_ret = True
         elif op == 'par':
-            acc = H(acc, 'par', run_par(ctx, fr, s[1], acc))
+            acc = H(acc, 'par', run_par(ctx, fr, s[1], acc, s[2] if len(s) > 2 else None))
         elif op == 'x':
             # extension statements registered by specific checks
             acc = EXT[s[1]](ctx, fr, s, acc)
@@ -324,18 +324,42 @@ def run_body(ctx, fr, body, acc):
 EXT = {}
 
 
+def st_peek(ctx, fr, s, acc):
+    """['x', 'peek', rel]: record (bytes, mtime_ns, inode) of a real file at this point
+    (monitor only; the program does not use it)"""
+    if ctx.real:
+        p = ctx.ap(s[2])
+        try:
+            st = os.stat(p)
+            with open(p, 'rb') as f:
+                data = f.read()
+            val = (data, st.st_mtime_ns, st.st_ino)
+        except OSError as e:
+            val = ('absent', e.__class__.__name__)
+        with ctx.lock:
+            ctx.peek_log = getattr(ctx, 'peek_log', [])
+            ctx.peek_log.append((s[2], s[3] if len(s) > 3 else None, val))
+    return acc
+
+
+EXT['peek'] = st_peek
+
+
 def MUTATE(ctx, value, how, edge):
     from .mutstmts import mutate
     return mutate(ctx, value, how, edge)
 
 
-def run_par(ctx, fr, bodies, acc):
+def run_par(ctx, fr, bodies, acc, opts=None):
+    """opts {'sym': True}: the threads are interchangeable (same seed, outcomes
+    compared as a multiset) - used when two threads race for the same key (C08)"""
     results = [None] * len(bodies)
     errors = [None] * len(bodies)
+    sym = bool(opts and opts.get('sym'))
 
     def worker(i):
         try:
-            results[i] = run_body(ctx, fr, bodies[i], H(acc, 'thr', i))
+            results[i] = run_body(ctx, fr, bodies[i], H(acc, 'thr', 'sym' if sym else i))
         except BaseException as e:  # noqa
             errors[i] = e
     if ctx.real and ctx.hooks.get('threads', True):
@@ -362,6 +386,8 @@ def run_par(ctx, fr, bodies, acc):
             out.append(['ok', results[i]])
     if first is not None:
         raise first
+    if sym:
+        out.sort(key=lambda x: json.dumps(x, sort_keys=True, default=repr))
     return out
 
 
